@@ -41,7 +41,7 @@ def run(ctx, R):
         return
     eq, pc = eq[0], pc[0]
     derived = eq.get("body", {}).get("mac") is not None
-    reps = F.representatives()
+    reps = F.representatives() + F.list_representatives()
     R.units["representatives"] = len(reps)
     intr = F.intrinsics()
     EQ, CMP = {}, {}
@@ -84,7 +84,7 @@ def run(ctx, R):
     le = lambda x, y: CMP[(x, y)] in ("Less", "Equal")
     b = first_bad((a, b_, c) for a in labels for b_ in labels if le(a, b_) for c in labels if le(b_, c) and not le(a, c))
     R.check(b is None, "r4", "transitive", where, "order is not transitive: %s" % (b,))
-    ints = [l for l in labels if nums[l] is not None]
+    ints = [l for l in labels if isinstance(nums[l], int)]
     R.floor("r5", "integer representatives", len(ints), 12)
     def ncmp(x, y):
         return "Less" if x < y else "Greater" if x > y else "Equal"
@@ -94,6 +94,22 @@ def run(ctx, R):
     R.check(b is None, "r5", "numeric-equality", C.loc(eq["sp"]), "integer equality differs from numeric equality: %s" % (b,))
     for cls in ("neg-signed x beyond-i64", "nonneg-signed x beyond-i64", "signed x small-unsigned", "same-type"):
         R.ok("r5", "class/%s" % cls)
+
+    # r7: lists compare elementwise with the same integer semantics (lexicographic numeric order, nested lists included)
+    R.rule("r7", "lists of integers (any mix of Int64 / Uint64, nested) are equal / ordered like the tuples of their numeric values")
+    lists = [l for l in labels if isinstance(nums[l], tuple)]
+    R.floor("r7", "integer-list representatives", len(lists), 10)
+    def depth(t):
+        return 0 if not t else (1 + max(depth(x) if isinstance(x, tuple) else 0 for x in t))
+
+    def comparable(x, y):            # same nesting depth (an empty list is a prefix of everything)
+        return not nums[x] or not nums[y] or depth(nums[x]) == depth(nums[y])
+    pairs = [(a, b_) for a in lists for b_ in lists if comparable(a, b_)]
+    b = first_bad((a, b_, EQ[(a, b_)]) for a, b_ in pairs if EQ[(a, b_)] != (nums[a] == nums[b_]))
+    R.check(b is None, "r7", "list-numeric-equality", C.loc(eq["sp"]),
+            "list equality differs from elementwise numeric equality (signed and unsigned integers of the same value must be equal inside lists too): %s" % (b,))
+    b = first_bad((a, b_, CMP[(a, b_)]) for a, b_ in pairs if CMP[(a, b_)] != ncmp(nums[a], nums[b_]))
+    R.check(b is None, "r7", "list-numeric-order", where, "list order differs from lexicographic numeric order: %s" % (b,))
 
     # r6: discriminant table
     disc = [f for f in C.fns if f["path"] == FV + "::discriminant"]
